@@ -164,7 +164,7 @@ def line_of(src: str, pos: int) -> int:
     return src.count('\n', 0, pos) + 1
 
 
-def find_range(src: str, m: str, impl_regex: str, fn_name: str, start_re: str, end_re: str, exclusive: bool = False):
+def find_range(src: str, m: str, impl_regex: str, fn_name: str, start_re: str, end_re: str, exclusive: bool = False, start_after: bool = False):
     """Inside fn body, the range runs from the start of the first line matching start_re to the end of the
     first line (at or after it) matching end_re, inclusive. Braces inside the range must balance."""
     f = find_fn(src, m, impl_regex, fn_name)
@@ -180,6 +180,8 @@ def find_range(src: str, m: str, impl_regex: str, fn_name: str, start_re: str, e
     if len(s_hits) != 1:
         raise AnchorError(f'range start /{start_re}/ in fn {fn_name} matched {len(s_hits)} lines')
     si = s_hits[0]
+    if start_after:
+        si += 1
     if end_re in ('@stmt', '@block'):
         # the statement that starts on the START line: up to the first line ending with ';' at balanced depth
         ei = None
